@@ -291,6 +291,36 @@ func checkC15(c C15Case) (*Violation, []string, *caseInfo) {
 	simos.ResetGlobals() // a history is one process lifetime: start it with fresh package state
 	a, errA := readDoc(c.A, c.YAML)
 	b, errB := readDoc(c.B, c.YAML)
+	// reading a document is itself a call whose result must not depend on map
+	// iteration order (YAML mappings arrive as Go maps)
+	{
+		st := &orderState{mo: c.Order, sites: map[string]int64{}}
+		for i, text := range []string{c.A, c.B} {
+			st.install()
+			var n jd.JsonNode
+			var err error
+			out := guardCall(func() outcome { n, err = readDoc(text, c.YAML); return outcome{} })
+			uninstallOrder()
+			ref, refErr := a, errA
+			if i == 1 {
+				ref, refErr = b, errB
+			}
+			stats.LibCalls++
+			if out.pan != "" {
+				continue
+			}
+			if (err != nil) != (refErr != nil) || err == nil && fingerprint(n) != fingerprint(ref) {
+				got, want := "error", "error"
+				if err == nil {
+					got = fingerprint(n)
+				}
+				if refErr == nil {
+					want = fingerprint(ref)
+				}
+				return viol15("same-output", "ReadDoc", "reading the same %s text twice gives %s under one map iteration order and %s under another; text=%s", map[bool]string{true: "YAML", false: "JSON"}[c.YAML], showStr(got), showStr(want), showStr(text)), nil, info
+			}
+		}
+	}
 	if errA != nil || errB != nil || a == nil || b == nil {
 		return nil, nil, info
 	}
@@ -583,6 +613,26 @@ func genCase15(c *Chooser) C15Case {
 		a.set("gone2", &Val{K: 'o', Keys: []string{"k"}, Vals: []*Val{vn(1)}})
 	}
 	cs := C15Case{A: a.JSON(0), B: b.JSON(0)}
+	if c.Chance(1, 5) {
+		// YAML carriers; sometimes with mapping keys that are not strings and
+		// collide once turned into strings (1 and "1", true and "true")
+		cs.YAML = true
+		if c.Chance(1, 2) {
+			for _, d := range []*Val{a, b} {
+				for _, n := range containers(d, nil) {
+					if n.K != 'o' || !c.Chance(1, 3) {
+						continue
+					}
+					k := []string{"1", "true", "2.5", "~"}[c.Int(4)]
+					n.RawKeys = make([]bool, len(n.Keys))
+					n.Keys = append(n.Keys, k, k)
+					n.Vals = append(n.Vals, vn(float64(c.Int(5))), vs("quoted"))
+					n.RawKeys = append(n.RawKeys, true, false)
+				}
+			}
+		}
+		cs.A, cs.B = a.YAML(), b.YAML()
+	}
 	// option sets: a seeded subset, always at least two
 	for _, o := range optionSets15 {
 		if c.Chance(1, 2) {
@@ -605,18 +655,30 @@ func genCase15(c *Chooser) C15Case {
 				sb.WriteString("@ [\"s\"]\n- 1\n+ 2\n")
 			}
 			keys := []string{"a", "b", "c"}
-			for j := 0; j < c.Range(2, 5); j++ {
+			sub := []string{"x", "y", "z"}
+			for j := 0; j < c.Range(2, 6); j++ {
 				k := keys[c.Int(3)]
 				sb.WriteString("^ {\"Merge\":true}\n")
-				switch c.Int(4) {
+				// a path of 1-4 keys below k, and a value that is a scalar, an
+				// array or an object nested 1-3 levels: later hunks reach into
+				// what earlier hunks added, at any depth
+				path := fmt.Sprintf("%q", k)
+				for d := 0; d < c.Int(4); d++ {
+					path += fmt.Sprintf(",%q", sub[c.Int(3)])
+				}
+				switch c.Int(5) {
 				case 0:
-					fmt.Fprintf(&sb, "@ [%q]\n+ {\"x\":%d}\n", k, j)
+					fmt.Fprintf(&sb, "@ [%s]\n+\n", path)
 				case 1:
-					fmt.Fprintf(&sb, "@ [%q,\"y\"]\n+ %d\n", k, j)
+					fmt.Fprintf(&sb, "@ [%s]\n+ %d\n", path, j)
 				case 2:
-					fmt.Fprintf(&sb, "@ [%q]\n+\n", k)
+					fmt.Fprintf(&sb, "@ [%s]\n+ [1,2,{\"z\":%d}]\n", path, j)
 				default:
-					fmt.Fprintf(&sb, "@ [%q,\"x\"]\n+ [1,2,{\"z\":%d}]\n", k, j)
+					val := fmt.Sprintf("%d", j)
+					for d := 0; d < c.Range(1, 3); d++ {
+						val = fmt.Sprintf("{%q:%s,\"w\":%d}", sub[c.Int(3)], val, d)
+					}
+					fmt.Fprintf(&sb, "@ [%s]\n+ %s\n", path, val)
 				}
 			}
 			cs.Texts = append(cs.Texts, TextSrc{Kind: "jd", Text: sb.String()})
